@@ -13,6 +13,8 @@ WELL = [('STRT', 'M', '1670.0', 'START DEPTH'), ('STOP', 'M', '1669.75', 'STOP D
         ('WELL', '', 'A.10-16 #2', 'WELL'), ('RUN', '', '2', 'RUN NUMBER'), ('CASE', '', 'yes', 'CASED'), ('EGL', 'M', '-12', 'GROUND LEVEL'),
         ('TOFF', 'S', '+30', 'TIME OFFSET')]
 CURVES = [('DEPT', 'M', '1  DEPTH'), ('GR', 'GAPI', '2  GAMMA RAY'), ('NPHI', 'V/V', '3  NEUTRON POROSITY'), ('DT', 'US/M', '4  SONIC')]
+# numeric curves that merely share the name of the LAS date / time curves (those are TIME.HHMMSS and DATE.D)
+CURVES_ALT = [('DEPT', 'M', '1  DEPTH'), ('TIME', 'S', '2  ELAPSED TIME'), ('DATE', 'YYMMDD', '3  DATE STAMP'), ('ETIM', 'S', '4  TIME SINCE START')]
 PARAMS = [('BHT', 'DEGC', '35.5', 'BOTTOM HOLE TEMPERATURE'), ('MUD', '', 'GEL CHEM', 'MUD TYPE'), ('TDEP', 'M', '-5', 'TIE-IN DEPTH')]
 
 
@@ -23,7 +25,7 @@ CELLS = ['123.45', '-999.25', '1e3', '0', 'abc', '-.5', '7.', '1.2.3']
 
 
 def _content(vers20, ncurves, nframes, params, c0, c1, c2):
-    curves = CURVES[:ncurves]
+    curves = (CURVES_ALT if c0 % 2 == 1 else CURVES)[:ncurves]
     cells = [c0, c1, c2]
     frames = []
     k = 0
@@ -101,7 +103,7 @@ def las_layouts(vers20: bool, ncurves: int, nframes: int, params: bool, wrap: bo
     c1, c2, cind = mark.pick_from(c1, (0, 4)), mark.pick_from(c2, (1, 7)), mark.pick(cind, 0, 2)
     with mark.untraced():
         content = _content(vers20, ncurves, nframes, params, c0, c1, c2)
-        lay = dict(wrap=wrap, lead=lead, sep=sep, comments=comments, blanks=blanks, per_line=per_line, colon_pad=colon_pad, comment_indent=['', '  ', '\t'][cind])
+        lay = dict(wrap=wrap, lead=lead, sep=sep, comments=comments, blanks=blanks, per_line=per_line, colon_pad=colon_pad, comment_indent=['', '  ', '\t'][cind], vers_fmt='%.2f' if c1 == 4 else '%.1f')
         return _check(content, lay)
 
 
@@ -121,7 +123,7 @@ def las_layouts_q(vers20: bool, ncurves: int, nframes: int, wrap: bool, lead: in
     per_line, c0 = mark.pick(per_line, 1, 2), mark.pick(c0, 0, 7)
     with mark.untraced():
         content = _content(vers20, ncurves, nframes, ncurves % 2 == 0, c0, 4, 7)
-        lay = dict(wrap=wrap, lead=lead, sep=sep, comments=comments, blanks=blanks, per_line=per_line, colon_pad=1 + lead // 2, comment_indent=['', '  ', '\t'][cind])
+        lay = dict(wrap=wrap, lead=lead, sep=sep, comments=comments, blanks=blanks, per_line=per_line, colon_pad=1 + lead // 2, comment_indent=['', '  ', '\t'][cind], vers_fmt='%.2f' if c0 >= 4 else '%.1f')
         return _check(content, lay)
 
 
